@@ -2242,10 +2242,20 @@ impl<'de, 'e> de::Deserializer<'de> for YamlDeserializer<'de, 'e> {
                                 _,
                             ) = &pairs[0]
                         {
-                            let is_nullish = *stag == SfTag::Null
-                                || sv.is_empty()
-                                || sv == "~"
-                                || sv.eq_ignore_ascii_case("null");
+                            // As for own entries: a quoted "" / "null" inner key is a string,
+                            // not the explicit-empty-key idiom.
+                            let inner_key_is_quoted = matches!(
+                                events.get(1),
+                                Some(Ev::Scalar {
+                                    style: ScalarStyle::SingleQuoted | ScalarStyle::DoubleQuoted,
+                                    ..
+                                })
+                            );
+                            let is_nullish = !inner_key_is_quoted
+                                && (*stag == SfTag::Null
+                                    || sv.is_empty()
+                                    || sv == "~"
+                                    || sv.eq_ignore_ascii_case("null"));
                             if is_nullish {
                                 // Zero-copy probe over recorded events to extract inner key/value spans
                                 if let Some((_ks, _ke, vs, ve)) = one_entry_map_spans(&events) {
